@@ -8,9 +8,10 @@ from .common import uncodes, guarded
 
 # alphabets -----------------------------------------------------------------
 SIGMA1 = ['a', ' ', '\n', '\\', '{', '}', '[', ']', '$', '%', '~', '-', '*']
-SIGMA2 = ['\\begin{e}', '\\end{e}', '\\begin', '\\end', '\\(', '\\)', '\\[', '\\]']
+SIGMA2 = ['\\begin{e}', '\\end{e}', '\\begin', '\\end', '\\(', '\\)', '\\[', '\\]',
+          '\\begin {e}', '\\end\n{e}']      # whitespace between \begin / \end and the environment name is legal
 K_ATOMS = SIGMA1 + SIGMA2 + ['\\m', '\\o', '\\s', '\\f', '\\t', '\\q', '\\z', '\\\\', '\\v', '\\r', '\\d', '\\c',
-                             '\\begin{q}', '\\end{q}', '(', ')', '<', '>', '+', '!', '\\N', '\\N{a}', '\\X']
+                             '\\begin{q}', '\\end{q}', '(', ')', '<', '>', '+', '!', '\\N', '\\N{a}', '\\X', '\\D']
 D_ATOMS = SIGMA1 + SIGMA2 + ['\\textbf', '\\frac', '\\ensuremath', '\\text', '\\item', '\\verb', '\\sqrt', '\\\\',
                              '\\begin{equation}', '\\end{equation}', '\\begin{itemize}', '\\end{itemize}',
                              '\\begin{verbatim}', '\\end{verbatim}', '|']
